@@ -113,7 +113,7 @@ type Regexp = Regex
 //	    log.Fatal(err)
 //	}
 func Compile(pattern string) (*Regex, error) {
-	engine, err := meta.Compile(pattern)
+	engine, err := meta.CompileWithConfig(pattern, compileConfig())
 	if err != nil {
 		return nil, err
 	}
@@ -122,6 +122,17 @@ func Compile(pattern string) (*Regex, error) {
 		engine:  engine,
 		pattern: pattern,
 	}, nil
+}
+
+// compileConfig returns the configuration used by the stdlib-compatible entry
+// points. regexp/syntax already bounds the height of the parse tree (1000 nodes),
+// so the NFA compiler's recursion guard must not be stricter than that: with the
+// generic default (100) patterns that stdlib accepts, such as 100 nested groups,
+// were rejected with "pattern too complex".
+func compileConfig() meta.Config {
+	config := meta.DefaultConfig()
+	config.MaxRecursionDepth = 1000
+	return config
 }
 
 // MustCompile compiles a regular expression pattern and panics if it fails.
